@@ -159,12 +159,14 @@ func (m *Manager) trySyncNextBlock(ctx context.Context, daHeight uint64) error {
 			return fmt.Errorf("failed to apply block: %w", err)
 		}
 
-		if err = m.updateState(ctx, newState); err != nil {
-			return fmt.Errorf("failed to save updated state: %w", err)
-		}
-
+		// the block is persisted before the state that says it was applied: after a crash in
+		// between, startup raises the store height to the state's height and the block must exist
 		if err = m.store.SaveBlockData(ctx, h, d, &h.Signature); err != nil {
 			return fmt.Errorf("failed to save block: %w", err)
+		}
+
+		if err = m.updateState(ctx, newState); err != nil {
+			return fmt.Errorf("failed to save updated state: %w", err)
 		}
 
 		// Height gets updated
